@@ -219,7 +219,9 @@ impl C07 {
         let mut out = Outcome::new();
         let directed = case.g.kind & 1 == 1;
         let weighted = case.g.wmode == 4;
-        let graph = big_graph(n, case.sel, directed, weighted);
+        let structured = case.g.shape == 13;
+        let graph = if structured { case.g.norm().build() } else { big_graph(n, case.sel, directed, weighted) };
+        let weighted = if structured { case.g.wmode != 0 } else { weighted };
         let run = |g: &crate::model::G| -> Result<Vec<(&'static str, String)>, String> {
             guard(|| {
                 let mut v = vec![];
@@ -238,7 +240,7 @@ impl C07 {
                 return out;
             }
         };
-        for threads in [2usize, 5, 16] {
+        for threads in [2usize, 5, 16, 64] {
             match pool_of(threads).install(|| run(&graph)) {
                 Err(p) => out.fail(format!("parallel/panic/{}", panic_class(&p)), p),
                 Ok(got) => {
@@ -264,7 +266,7 @@ impl Prop for C07 {
         "C07"
     }
     fn rule(&self) -> String {
-        "graphs of all 8 kinds with 21..=60 nodes (plus, one case in 13, a procedurally generated sparse graph with a log-uniform size in 61..=3000 on which the centralities (and, up to 1200 nodes, distance-only all_pairs) run in pools of 2, 5 and 16 threads) (random, tie-rich shapes, unweighted / tie-rich / non-dyadic weights so that the order of floating-point additions would matter). For every graph the five functions (all_pairs with and without paths, multi_source on a generated subset, get_all_shortest_paths_involving, all_pairs / multi_source with target, cutoff and first_only, betweenness raw/normalized, closeness with/without WF) run inside rayon pools of every size 1..=16 and of 24, 32 and 64 threads (wider than the graph) entered with install (size 1 takes the serial path and is the reference), each size repeated 2 (quick) / 6 (thorough) times, half of the repetitions with perturbing load (busy tasks spawned into the same pool; the harness itself runs 16 cases at a time on shared pools, which shifts work stealing further); plus 6 scoped threads calling the functions on one &Graph at the same time. Exhaustive block (long-lived-thread protocol): a worker of a single-thread pool serves 40 calls on a 5-node graph, one call of each function on a 32-node graph, then a run of calls on a 5-node graph whose length is each of width - 4 .. width + 1 counter steps (width = 2^8, 2^16; per-call cost 1 or 5 steps), then all functions on the 32-node graph, whose results must equal those of a brand-new thread. Oracle: differential — identical key sets, f64::to_bits equality of every distance and centrality, identical path lists including their order. Non-trivial = n > 20 and the serial result contains a non-integer value or a pair with >= 2 paths; distinct = distinct serialised case.".into()
+        "graphs of all 8 kinds with 21..=60 nodes (plus, one case in 14, a bundle of 2^52..2^126 equally short routes tied with a single bypass route, and, one case in 14, a procedurally generated sparse graph with a log-uniform size in 61..=3000 on which the centralities (and, up to 1200 nodes, distance-only all_pairs) run in pools of 2, 5 and 16 threads) (random, tie-rich shapes, unweighted / tie-rich / non-dyadic weights so that the order of floating-point additions would matter). For every graph the five functions (all_pairs with and without paths, multi_source on a generated subset, get_all_shortest_paths_involving, all_pairs / multi_source with target, cutoff and first_only, betweenness raw/normalized, closeness with/without WF) run inside rayon pools of every size 1..=16 and of 24, 32 and 64 threads (wider than the graph) entered with install (size 1 takes the serial path and is the reference), each size repeated 2 (quick) / 6 (thorough) times, half of the repetitions with perturbing load (busy tasks spawned into the same pool; the harness itself runs 16 cases at a time on shared pools, which shifts work stealing further); plus 6 scoped threads calling the functions on one &Graph at the same time. Exhaustive block (long-lived-thread protocol): a worker of a single-thread pool serves 40 calls on a 5-node graph, one call of each function on a 32-node graph, then a run of calls on a 5-node graph whose length is each of width - 4 .. width + 1 counter steps (width = 2^8, 2^16; per-call cost 1 or 5 steps), then all functions on the 32-node graph, whose results must equal those of a brand-new thread. Oracle: differential — identical key sets, f64::to_bits equality of every distance and centrality, identical path lists including their order. Non-trivial = n > 20 and the serial result contains a non-integer value or a pair with >= 2 paths; distinct = distinct serialised case.".into()
     }
     fn assumptions(&self) -> Vec<String> {
         vec![
@@ -285,7 +287,10 @@ impl Prop for C07 {
             let n = (61.0 * (3000.0f64 / 61.0).powf(r as f64 / 999.0)).round() as u16;
             ParCase { g: GraphCase { kind: k & 1, n: 0, perm: 0, shape: 0, edges: vec![], wmode: if k & 2 == 2 { 4 } else { 0 }, big_n: 0, big_seed: 0 }, sel, big_n: Some(n), soak: None }
         });
-        prop_oneof![12 => normal, 1 => big].boxed()
+        // a bundle of 2^52 .. 2^126 equally short routes tied with one bypass (shape 13): path-count
+        // ratios far below f64 resolution; centralities and distances only
+        let bundle = (0u8..2, 107u8..=255, any::<u64>(), prop::sample::select(vec![1u8, 0])).prop_map(|(kind, n, sel, wmode)| ParCase { g: GraphCase { kind, n, perm: 0, shape: 13, edges: vec![], wmode, big_n: 0, big_seed: 0 }, sel, big_n: Some(n as u16), soak: None });
+        prop_oneof![12 => normal, 1 => big, 1 => bundle].boxed()
     }
     fn random_cases(&self, tier: Tier) -> u32 {
         tier.pick(160, 2_400)
@@ -293,6 +298,10 @@ impl Prop for C07 {
     fn enumerate(&self, _tier: Tier) -> Vec<ParCase> {
         // the long-lived-thread protocol for counters of 8 and 16 bits, on four kinds of graph
         let mut v = vec![];
+        // the bundle-with-bypass graph (60 and 100 stages), both directions
+        for (kind, n) in [(0u8, 123u8), (1, 123), (1, 203)] {
+            v.push(ParCase { g: GraphCase { kind, n, perm: 0, shape: 13, edges: vec![], wmode: 1, big_n: 0, big_seed: 0 }, sel: n as u64, big_n: Some(n as u16), soak: None });
+        }
         for width in [1u32 << 8, 1 << 16] {
             for (kind, wmode) in [(0u8, 0u8), (1, 3), (0, 4), (1, 0)] {
                 v.push(ParCase { g: GraphCase { kind, n: 32, perm: 5, shape: 2, edges: vec![(0, 9, 3), (4, 20, 6), (31, 2, 9), (7, 7, 3), (12, 28, 1)], wmode, big_n: 0, big_seed: 0 }, sel: width as u64, big_n: None, soak: Some(width) });
